@@ -299,8 +299,9 @@ def evaluate(chk, cases):
             c['text'] = json.dumps(ir)[:600]
         if c['model_kind'] == 'ok':
             c['model_obs'] = obs_model(mr)
-        acr = bool(c['cfg'].get('uppercase_acronyms'))
-        jreq.append(f'(c02 {c["lang"]} {B(acr)} {asts[c["src"]]["ok"]} () {S(c["enum"])} {obs_sx(c["impl_obs"] or [])})')
+        # Go: the acronym LIST goes to the judge, which then uses the EXACT class (Spec.C02Spec.known_C02_go, theorem C02_back_go_exact)
+        acr = Lst(c['cfg'].get('uppercase_acronyms') or [], S) if c['lang'] == 'go' else B(bool(c['cfg'].get('uppercase_acronyms')))
+        jreq.append(f'(c02 {c["lang"]} {acr} {asts[c["src"]]["ok"]} () {S(c["enum"])} {obs_sx(c["impl_obs"] or [])})')
     for c, j in zip(cases, vf.model(jreq)):
         c['dom'] = j[0] == 'true'
         c['known'] = sx_opt(j[1])
